@@ -107,14 +107,14 @@ func (c *c19Ctx) genScenario(seed uint64, progs []*c19Prog) *Scenario {
 	if s.Shape == "src-dst-lst" || s.Shape == "four" {
 		s.LstKind = pick(r, []string{"ok", "ok", "ok", "parent_missing", "same_as_dst", "existing"})
 	}
-	srcKinds := []string{"file", "missing", "dir", "mode000", "symlink_ok", "dangling", "loop", "spacename", "nonascii_name", "longname", "same_as_dst", "emptyarg", "fifo"}
-	s.SrcKind = srcKinds[r.weighted([]int{80, 3, 2, 2, 2, 1, 1, 2, 2, 1, 2, 1, 3})]
+	srcKinds := []string{"file", "missing", "dir", "mode000", "symlink_ok", "dangling", "loop", "spacename", "nonascii_name", "longname", "same_as_dst", "emptyarg", "fifo", "stdin", "relative", "dotslash"}
+	s.SrcKind = srcKinds[r.weighted([]int{74, 3, 2, 2, 2, 1, 1, 2, 2, 1, 2, 1, 3, 3, 2, 2})]
 	if r.Chance(1, 16) && len(s.Header)+len(s.Body) > 0 {
 		s.Break = 1 + r.Intn(4)
 		s.BreakLine = r.Intn(len(s.Header) + len(s.Body))
 	}
-	dstKinds := []string{"absent", "empty", "shorter", "equal", "longer", "old_image", "ro_file", "ro_dir", "parent_missing", "parent_is_file", "is_dir", "symlink_file", "dangling_symlink", "dev_full", "relative", "dotdot", "longname", "emptyarg"}
-	s.DstKind = dstKinds[r.weighted([]int{35, 4, 8, 5, 10, 6, 3, 3, 3, 2, 3, 3, 2, 3, 4, 3, 1, 1})]
+	dstKinds := []string{"absent", "empty", "shorter", "equal", "longer", "old_image", "ro_file", "ro_dir", "parent_missing", "parent_is_file", "is_dir", "symlink_file", "dangling_symlink", "dev_full", "relative", "dotdot", "longname", "emptyarg", "dev_null", "trailing_slash"}
+	s.DstKind = dstKinds[r.weighted([]int{35, 4, 8, 5, 10, 6, 3, 3, 3, 2, 3, 3, 2, 3, 4, 3, 1, 1, 2, 2})]
 	if s.SrcKind == "same_as_dst" {
 		s.DstKind = "absent"
 	}
@@ -122,12 +122,15 @@ func (c *c19Ctx) genScenario(seed uint64, progs []*c19Prog) *Scenario {
 	if r.Chance(1, 5) || ((s.SrcKind == "mode000" || s.DstKind == "ro_file" || s.DstKind == "ro_dir") && r.Chance(3, 4)) {
 		s.Uid = nobody
 	}
-	if s.SrcKind == "fifo" {
+	if s.SrcKind == "stdin" {
+		s.Uid = 0 // the harness's pipe is not openable through /proc/self/fd/0 by another user
+	}
+	if s.SrcKind == "fifo" || s.SrcKind == "stdin" {
 		if src, _ := s.materialise(); len(src) > 60000 { // must fit the pipe buffer in one write
 			s.SrcKind = "file"
 		}
 	}
-	if r.Chance(3, 10) && (s.Shape == "src-dst" || s.Shape == "src-dst-lst" || s.Shape == "d-src-dst") && s.SrcKind != "fifo" {
+	if r.Chance(3, 10) && (s.Shape == "src-dst" || s.Shape == "src-dst-lst" || s.Shape == "d-src-dst") && s.SrcKind != "fifo" && s.SrcKind != "stdin" {
 		_, plain := s.materialise()
 		_, img := c.imageOf(plain)
 		switch r.weighted([]int{35, 10, 55}) {
@@ -153,7 +156,7 @@ func (c *c19Ctx) genScenario(seed uint64, progs []*c19Prog) *Scenario {
 			}
 			s.Fault = &Fault{Kind: "strace", Target: st.target, Syscall: st.syscall, When: when, Errno: pick(r, errnos)}
 		}
-		if s.Fault.Kind == "strace" && (s.DstKind == "dev_full" || s.DstKind == "emptyarg" || s.SrcKind == "emptyarg") {
+		if s.Fault.Kind == "strace" && (s.DstKind == "dev_full" || s.DstKind == "dev_null" || s.DstKind == "emptyarg" || s.SrcKind == "emptyarg") {
 			// -P on a device node would also match nothing useful; keep the natural /dev/full fault alone
 			s.Fault = nil
 		}
